@@ -6,7 +6,7 @@
 //   J  <hex cddl> <hex json>        cddl::validate_json_from_str(cddl, json, None)
 //   C  <hex cddl> <hex cbor>        cddl::validate_cbor_from_slice(cddl, cbor, None)
 //   V  <hex cddl> <hex csv> [h]     cddl::validate_csv_from_str(cddl, csv, Some(h == "1"), None)
-//   D  <hex cbor>                   cddl::validator::cbor_value::decode_cbor(bytes)
+//   D  <hex cbor> [n]               cddl::validator::cbor_value::decode_cbor(bytes), n times
 //   G  <hex text>                   parse, then print the alias environment and the reference environment of the AST
 //                                   (detail = "<alias env>\t<ref env>", see fn graph); used by the classifiers only
 //   K  <n>                          driver self-test: n = 0 panic, 1 stack overflow, 2 huge allocation, 3 endless loop
@@ -212,7 +212,16 @@ fn dispatch(parts: &[&str]) -> &'static str {
       let h = parts.get(3).map(|x| *x == "1").unwrap_or(false);
       verdict(cddl::validate_csv_from_str(&text(parts[1]), &text(parts[2]), Some(h), None))
     }
-    "D" => verdict(cddl::validator::cbor_value::decode_cbor(&unhex(parts[1]))),
+    "D" => {
+      // optional third field: repeat the decoding n times (growth measurements of a very fast function)
+      let b = unhex(parts[1]);
+      let reps: usize = parts.get(2).and_then(|x| x.parse().ok()).unwrap_or(1);
+      let mut v = "ERR";
+      for _ in 0..reps.max(1) {
+        v = verdict(std::hint::black_box(cddl::validator::cbor_value::decode_cbor(std::hint::black_box(&b))));
+      }
+      v
+    }
     "K" => match parts[1] {
       "0" => panic!("self-test panic"),
       "1" => {
